@@ -123,7 +123,7 @@ def run_check(tier, seed):
     if not ok:
         broken.append({'kind': 'harness-build', 'log': out[-3000:]})
     else:
-        n = 120 if tier == "quick" else 2500
+        n = 40 if tier == "quick" else 1200
         cases, obs, badh = oc.explore(PROP, seed + 11, n, True, bindir, 'c11', )
         cases = [c for c in cases]
         if badh: broken.append({'kind': 'harness', 'name': 'harness output incomplete or layers not materialised as generated', 'cases': badh[:5]})
